@@ -13,6 +13,12 @@ static uint64_t pm_pow(uint64_t e)
 	while (e) { if (e & 1) r = (r * b) % PM_M; b = (b * b) % PM_M; e >>= 1; }
 	return r;
 }
+static uint64_t pm_powb(uint64_t b, uint64_t e)
+{
+	uint64_t r = 1; b %= PM_M;
+	while (e) { if (e & 1) r = (r * b) % PM_M; b = (b * b) % PM_M; e >>= 1; }
+	return r;
+}
 static uint64_t oracle_ret(uint64_t s1, uint64_t maxv)
 {	/* the RFC's reference expression, evaluated here */
 	return (uint64_t)((double)s1 * (double)maxv / (double)0x7FFFFFFF);
@@ -129,6 +135,41 @@ int p_c19(void)
 		uint64_t first = per * a, n = (a == narcs - 1) ? total - first : per;
 		rng_t r3 = rng_make(g_run.seed, 1950 + a, 2);
 		walk_arc(unit, first, n, &r3);
+	}
+	/* rounding-sensitive pairs: states s' with s'*maxv = -r or +r (mod 2^31-1) for small r and s'*maxv >= 2^53 are exactly
+	 * where the RFC's double expression and an exact integer floor can disagree; they are constructed (modular inverse),
+	 * the library is seeded one step before, and its return value is compared with the double expression. Random sampling
+	 * meets such a pair with probability ~1e-10, so they are generated on purpose. */
+	{
+		uint32_t lo = 1u << 22, hi = 12750000, stride = g_run.thorough ? 1 : 16; int nu = 32;
+		uint32_t span = (hi - lo) / (uint32_t)nu + 1;
+		uint64_t inv16807 = pm_powb(16807, PM_M - 2);
+		for (int u = 0; u < nu; u++, unit++) {
+			rep_unit(unit);
+			if (!rep_unit_mine(unit)) continue;
+			uint32_t a = lo + (uint32_t)u * span, b = a + span > hi ? hi + 1 : a + span;
+			if (!rep_case("rounding-sensitive pairs maxv=%u..%u stride=%u r=-16..16", a, b - 1, stride)) continue;
+			int bad = 0; uint64_t npairs = 0, differ = 0;
+			for (uint32_t maxv = a + (g_run.seed % stride); maxv < b && !bad; maxv += stride) {
+				uint64_t invm = pm_powb(maxv, PM_M - 2);
+				for (int r = -16; r <= 16 && !bad; r++) {
+					if (!r) continue;
+					uint64_t s1 = ((r < 0 ? PM_M - (uint64_t)(-r) : (uint64_t)r) * invm) % PM_M;     /* s1*maxv = r (mod p) */
+					if (!s1) continue;
+					uint64_t s0 = (s1 * inv16807) % PM_M;
+					of_rfc5170_srand(s0);
+					uint64_t ret = of_rfc5170_rand(maxv);
+					if (of_seed != s1) { rep_viol("prng-state", "from=%llu got=%llu want=%llu", (unsigned long long)s0, (unsigned long long)of_seed, (unsigned long long)s1); bad = 1; break; }
+					uint64_t want = oracle_ret(s1, maxv), ex = (uint64_t)(((unsigned __int128)s1 * maxv) / PM_M);
+					if (ret != want) { rep_viol("prng-scale", "rounding-sensitive pair: state=%llu maxv=%u ret=%llu, RFC double expression gives %llu (exact floor %llu)", (unsigned long long)s1, maxv, (unsigned long long)ret, (unsigned long long)want, (unsigned long long)ex); bad = 1; break; }
+					if (ret >= maxv) { rep_viol("prng-range", "state=%llu maxv=%u ret=%llu", (unsigned long long)s1, maxv, (unsigned long long)ret); bad = 1; break; }
+					npairs++; if (want != ex) differ++;
+				}
+			}
+			rep_count("rounding_sensitive_pairs_checked", npairs);
+			rep_count("pairs_where_the_double_expression_differs_from_the_exact_floor", differ);
+			rep_case_done(1, 0, 1);
+		}
 	}
 	if (g_run.thorough) {
 		rep_unit(unit);
